@@ -39,8 +39,16 @@ func GenCatalogue() []GenLayout {
 	sb.BothSizes = true
 	sc := StppRep("sub_sv", 1000, UniformDurs(4, 2000))
 	sc.CompactTrun = true
-	add("ok", "stpp subtitles whose sample size is in tfhd and trun (sub_en) or only in tfhd (sub_sv)", "g_stpp_sizes",
-		VideoRep("V300", 90000, 3000, v2s), sb, sc)
+	sa := StppRep("sub_fi", 1000, UniformDurs(4, 2000))
+	sa.TTMLApos = true
+	add("ok", "stpp subtitles whose sample size is in tfhd and trun (sub_en) or only in tfhd (sub_sv); begin/end quoted with apostrophes (sub_fi)", "g_stpp_sizes",
+		VideoRep("V300", 90000, 3000, v2s), sb, sc, sa)
+
+	add("ok", "thumbnails listed before the subtitles in the VoD MPD (video, audio, thumbnails, stpp)", "g_thumbs_first",
+		VideoRep("V300", 90000, 3000, v2s),
+		AudioRep("A48", 1024, AudioDursFollowing(v2s, 90000, 48000, 1024, 0)),
+		ThumbsRep("thumbs", 1, 4, 2),
+		StppRep("sub_en", 1000, UniformDurs(4, 2000)))
 
 	v10m := UniformDurs(4, 20000000)
 	add("ok", "timescale 10 MHz (Smooth-Streaming style), 4 x 2 s at 25 fps, $Time$: products with 1000 leave 64 bits after 58 years", "g_10mhz_tl",
